@@ -419,12 +419,22 @@ func stripTweens(m protoreflect.Message) {
 }
 
 func (s *session) doGet(mask *fieldmaskpb.FieldMask) {
+	req, op := s.prepGet(mask)
+	out, pm := s.call("Get"+s.t.X, req)
+	s.finishGet(mask, op, out, pm)
+}
+
+// prepGet builds a Get request; finishGet judges its outcome against the register as it is when the outcome is judged.
+func (s *session) prepGet(mask *fieldmaskpb.FieldMask) (proto.Message, string) {
 	req := newMsg(s.t.get.Input())
 	setStr(req, "name", devName)
 	setMask(req, "read_mask", mask)
 	op := fmt.Sprintf("Get%s(read_mask=%v)", s.t.X, paths(mask))
 	reportProgress(progress{Sid: s.sid, Step: s.step, Op: op, Trace: tailTrace(s.trace, 12)})
-	out, pm := s.call("Get"+s.t.X, req.Interface())
+	return req.Interface(), op
+}
+
+func (s *session) finishGet(mask *fieldmaskpb.FieldMask, op string, out []reflect.Value, pm string) {
 	if pm != "" {
 		s.trace = append(s.trace, stepDesc{s.step, op, "panic: " + pm})
 		s.obs("getpanic", s.violate("Get/panic", "Get panicked", "a response", "panic: "+pm))
@@ -483,6 +493,14 @@ func paths(m *fieldmaskpb.FieldMask) string {
 }
 
 func (s *session) doUpdate() {
+	req, payload, op := s.prepUpdate()
+	out, pm := s.call("Update"+s.t.X, req)
+	s.finishUpdate(payload, op, out, pm)
+}
+
+// prepUpdate generates an Update request (payload, extras, update mask); finishUpdate judges the outcome as one
+// register write on the register as it is when the outcome is judged.
+func (s *session) prepUpdate() (proto.Message, proto.Message, string) {
 	req := newMsg(s.t.update.Input())
 	s.g.Density = s.density()
 	// random extras first (relative/delta flags etc.: part of the arbitrary interceptor), then the canonical fields
@@ -509,7 +527,10 @@ func (s *session) doUpdate() {
 	setMask(req, "update_mask", um)
 	op := fmt.Sprintf("Update%s(%s)", s.t.X, txt(req.Interface()))
 	reportProgress(progress{Sid: s.sid, Step: s.step, Op: op, Trace: tailTrace(s.trace, 12)})
-	out, pm := s.call("Update"+s.t.X, req.Interface())
+	return req.Interface(), payload, op
+}
+
+func (s *session) finishUpdate(payload proto.Message, op string, out []reflect.Value, pm string) {
 	if pm != "" {
 		s.trace = append(s.trace, stepDesc{s.step, op, "panic: " + pm})
 		s.obs("updpanic", s.violate("Update/panic", "Update panicked instead of returning a value or a status", "a response or an error status", "panic: "+pm))
@@ -820,6 +841,11 @@ func runSession(t triple, sid sessionID, mon *lib.Monitor) (lines, verdicts []st
 	s := &session{t: t, r: r, g: pbgen.New(r), ids: map[string]int{}, maskIDs: map[string]int{}, mon: mon, sid: sid}
 	s.g.MaxDepth = 2
 	cl, model := t.Row.New()
+	var g *gate
+	if mk := gatedRows[t.Row.rowKey()]; mk != nil {
+		g = &gate{}
+		cl, model = mk(g), nil
+	}
 	s.client = reflect.ValueOf(cl)
 	s.pokes = pokeMethods(model, t.resource)
 	s.singleItem = sid.Seq%2 == 1
@@ -834,7 +860,11 @@ func runSession(t triple, sid sessionID, mon *lib.Monitor) (lines, verdicts []st
 	s.lines = append(s.lines, "reset")
 	s.verdict = append(s.verdict, "ok")
 	s.step = -1
-	s.doGet(nil) // learn the initial value
+	if g != nil {
+		s.firstUse(g) // the first requests for the name overlap inside the router's client factory
+	} else {
+		s.doGet(nil) // learn the initial value
+	}
 	for i := 0; i < sid.Steps && !s.failed; i++ {
 		s.step = i
 		reportProgress(progress{Sid: sid, Step: i, Op: "next", Trace: tailTrace(s.trace, 12)})
